@@ -13,7 +13,7 @@ use zip::ZipWriter;
 /// What a consumer observes from an archive: per entry metadata + content-or-error.
 impl EObs {
     pub fn failed() -> EObs {
-        EObs { name: "<failed>".into(), size: u64::MAX, csize: 0, crc: 0, method: 0, dos: (0, 0), mode: None, content: Err(()) }
+        EObs { name: "<failed>".into(), size: u64::MAX, csize: 0, crc: 0, method: 0, dos: (0, 0), mode: None, content: Err(()), comment: String::new(), extra: Vec::new() }
     }
     pub fn is_failed(&self) -> bool {
         self.size == u64::MAX || self.name.starts_with("<open failed")
@@ -33,6 +33,8 @@ pub struct EObs {
     dos: (u16, u16),
     mode: Option<u32>,
     content: Result<Vec<u8>, ()>,
+    comment: String,
+    extra: Vec<u8>,
 }
 
 fn obs_file(f: &mut zip::read::ZipFile<'_>, bufs: &[usize]) -> Result<EObs, String> {
@@ -43,7 +45,7 @@ fn obs_file(f: &mut zip::read::ZipFile<'_>, bufs: &[usize]) -> Result<EObs, Stri
 /// the same entry (a retrying copy loop); what those calls return is not judged, they must not panic
 fn obs_file_x(f: &mut zip::read::ZipFile<'_>, bufs: &[usize], persist: bool) -> Result<EObs, String> {
     let lm = f.last_modified();
-    let mut o = EObs { name: f.name().to_string(), size: f.size(), csize: f.compressed_size(), crc: f.crc32(), method: super::common::method_id(f.compression()), dos: (lm.datepart(), lm.timepart()), mode: f.unix_mode(), content: Err(()) };
+    let mut o = EObs { name: f.name().to_string(), size: f.size(), csize: f.compressed_size(), crc: f.crc32(), method: super::common::method_id(f.compression()), dos: (lm.datepart(), lm.timepart()), mode: f.unix_mode(), content: Err(()), comment: f.comment().to_string(), extra: f.extra_data().to_vec() };
     match read_with_bufs(f, bufs, 1 << 26) {
         Ok(c) => o.content = Ok(c),
         Err(e) if e.starts_with("read error") => {
@@ -83,9 +85,11 @@ pub fn observe_seekable_x<R: Read + Seek>(r: R, passwords: &[Option<Vec<u8>>], b
         };
         match f {
             Ok(mut f) => v.push(obs_file_x(&mut f, bufs, persist)?),
-            Err(()) => v.push(EObs { name: format!("<open failed {i}>"), size: 0, csize: 0, crc: 0, method: 0, dos: (0, 0), mode: None, content: Err(()) }),
+            Err(()) => v.push(EObs { name: format!("<open failed {i}>"), size: 0, csize: 0, crc: 0, method: 0, dos: (0, 0), mode: None, content: Err(()), comment: String::new(), extra: Vec::new() }),
         }
     }
+    // archive-level observations as a last pseudo entry: entry count, offset(), archive comment
+    v.push(EObs { name: "<archive>".into(), size: za.len() as u64, csize: za.offset(), crc: 0, method: 0, dos: (0, 0), mode: None, content: Ok(Vec::new()), comment: String::from_utf8_lossy(za.comment()).into_owned(), extra: za.comment().to_vec() });
     Ok(Ok(v))
 }
 
@@ -114,7 +118,7 @@ pub fn observe_stream_partial<R: Read>(mut r: R, bufs: &[usize], consume: &[u8])
                     }
                     got.truncate(n);
                     let lm = f.last_modified();
-                    v.push(EObs { name: f.name().to_string(), size: f.size(), csize: f.compressed_size(), crc: f.crc32(), method: super::common::method_id(f.compression()), dos: (lm.datepart(), lm.timepart()), mode: f.unix_mode(), content: Ok(got) });
+                    v.push(EObs { name: f.name().to_string(), size: f.size(), csize: f.compressed_size(), crc: f.crc32(), method: super::common::method_id(f.compression()), dos: (lm.datepart(), lm.timepart()), mode: f.unix_mode(), content: Ok(got), comment: f.comment().to_string(), extra: f.extra_data().to_vec() });
                 }
             }
             Ok(None) => return Ok((v, true)),
